@@ -9,6 +9,8 @@ package main
 //	put/putext/del/flags/sync/nosync/defrag/close/get/browse/peek/count   (as oracle_c19)
 //	snap <0|1>                     copy the directory at every vhook.Point of the following requests
 //	crash                          -> <tag>=<snapshot dir>;…  for the last state-changing request
+//	crashat <x>                    die at snapshot x mod #snapshots of the last state-changing request: abandon the DB,
+//	                               continue (closed) on a copy of that snapshot -> ok <tag> ; files=<listing>
 //	recover <dir>                  open (non-volatile, load, default options), read everything, close
 //	                               -> ok:<k=len.hash,…>
 //	probe <dir>                    recover, then Put(sentinel), Sync, Close, open, read everything, close
@@ -228,6 +230,12 @@ func (w *worker) handle(t []string) string {
 		return mut("ok")
 	case "recover", "probe":
 		// recover: open, read everything. probe: additionally Put(sentinel), Sync, Close, reopen, read everything.
+		// (on a private copy: the snapshot itself may be continued from by a later `crashat`)
+		w.nsnap++
+		tmp := fmt.Sprintf("%s/rec%06d", w.root, w.nsnap)
+		copyDir(t[1], tmp)
+		defer os.RemoveAll(tmp)
+		t[1] = tmp
 		db, _ := qdb.NewDB(t[1], true)
 		rep := "ok:" + kvStr(readAll(db))
 		if t[0] == "probe" {
@@ -241,6 +249,33 @@ func (w *worker) handle(t []string) string {
 		}
 		db.Close()
 		return rep
+	case "crashls": // the crash points of the last state-changing request: <tag>|<listing>;…
+		var out []string
+		for _, s := range w.snaps {
+			eq := strings.IndexByte(s, '=')
+			out = append(out, s[:eq]+"|"+fileList(s[eq+1:]))
+		}
+		return strings.Join(out, ";")
+	case "crashat":
+		// the process "dies" at one of the snapshots of the last state-changing request: the DB object is abandoned
+		// without Close and the directory is replaced by that snapshot
+		if !w.snapOn {
+			return "bad-op"
+		}
+		x, _ := strconv.ParseUint(t[1], 10, 64)
+		tag, src := "now", w.dir
+		if len(w.snaps) > 0 {
+			s := w.snaps[x%uint64(len(w.snaps))]
+			eq := strings.IndexByte(s, '=')
+			tag, src = s[:eq], s[eq+1:]
+		}
+		w.db = nil
+		w.ndir++
+		nd := fmt.Sprintf("%s/db%d", w.root, w.ndir)
+		copyDir(src, nd)
+		os.RemoveAll(w.dir)
+		w.dir = nd
+		return "ok " + tag + " ; files=" + fileList(w.dir)
 	case "crash":
 		// nothing to evaluate when no vhook.Point fired: the directory did not change
 		hooks := 0
